@@ -22,6 +22,43 @@ theorem natsum_indexed_fst (gs : List Goal) (F : Goal → Nat) :
   have : ((indexed gs).map fun gj => F gj.1) = ((indexed gs).map Prod.fst).map F := by simp
   rw [this, indexed, map_fst_indexFrom]
 
+/-! ### the model in the shape of the source (used by the generated module `Gen/GpObjective.lean`) -/
+
+theorem vertcat_eq_fns (sbs isPath : Bool) (T : Nat) (val : Val) (m i : Nat) (gs : List Goal) :
+    vertcat sbs isPath T val m i gs = (objectiveFns gs).flatMap (objVec sbs isPath T val m i) := by
+  unfold vertcat objectiveFns
+  induction indexed gs with
+  | nil => rfl
+  | cons gj rest ih =>
+    cases hc : gj.1.critical
+    · simp [List.filter_cons, hc, ih]
+    · simp [List.filter_cons, hc, ih, objVec]
+
+theorem objectiveFns_map_fst (gs : List Goal) :
+    (objectiveFns gs).map Prod.fst = gs.filter fun g => !g.critical := by
+  unfold objectiveFns
+  have h : ((indexed gs).filter fun gj => !gj.1.critical)
+      = (indexed gs).filter ((fun g : Goal => !g.critical) ∘ Prod.fst) := rfl
+  rw [h, ← List.filter_map, indexed, map_fst_indexFrom]
+
+theorem gpObjective_code (sbs isPath : Bool) (T : Nat) (val : Val) (m i : Nat) (gs : List Goal) (n : Nat) :
+    gpObjective sbs isPath T val m i gs n
+      = gpObjectiveCode sbs (objVec sbs isPath T val m i) (objectiveFns gs) n := by
+  unfold gpObjective gpObjectiveCode
+  rw [← vertcat_eq_fns]
+  have hlen : (gs.filter fun g => !g.critical).length = (objectiveFns gs).length := by
+    rw [← objectiveFns_map_fst, List.length_map]
+  by_cases he : (gs.filter fun g => !g.critical) = []
+  · have h0 : (objectiveFns gs).length = 0 := by rw [← hlen, he]; rfl
+    simp [he, h0]
+  · have hpos : 0 < (objectiveFns gs).length := by
+      rw [← hlen]; exact List.length_pos_iff.2 he
+    have hne : (gs.filter fun g => !g.critical).isEmpty = false := by
+      cases h : (gs.filter fun g => !g.critical) with
+      | nil => exact absurd h he
+      | cons a l => rfl
+    simp [hne, hpos]
+
 /-- one entry of an objective vector -/
 def entry (sbs isPath : Bool) (T : Nat) (val : Val) (m i : Nat) (gj : Goal × Nat) (c : Nat) : Rat :=
   gj.1.weight * (base gj.1 isPath gj.2 val m i c) ^ gj.1.order / gj.1.nActive sbs isPath T c
